@@ -13,5 +13,9 @@ for id in $(cat claimed.txt); do
   CARGO_BINS="$CARGO_BINS --bin c$n"
 done
 (cd lean && lake build $LEAN_TARGETS)
-(cd harness && cargo build --offline $CARGO_BINS)
+# a stale / half-written incremental cache (e.g. a sandbox copy taken mid-build) can make the link fail:
+# retry once without the incremental cache, then from a clean target
+(cd harness && cargo build --offline $CARGO_BINS) || \
+  (cd harness && rm -rf target/debug/incremental && cargo build --offline $CARGO_BINS) || \
+  (cd harness && cargo clean && cargo build --offline $CARGO_BINS)
 echo setup-ok
